@@ -158,7 +158,8 @@ void family_pool() {
         });
         std::thread stopper;
         if (stop_mode == 1) stopper = std::thread([&pool] { pool.stop(); });
-        if (stop_mode == 2) for (int k = 0; k < 3; k++) { dsim::cell_add(OBS + 9, (pool.is_stopped() ? 1 : 0) + (pool.any_enqueued() ? 2 : 0)); std::this_thread::yield(); }
+        // the stop state is polled while nobody stops (2) and while another thread is inside stop() (1)
+        if (stop_mode >= 1) for (int k = 0; k < 3; k++) { dsim::cell_add(OBS + 9, (pool.is_stopped() ? 1 : 0) + (pool.any_enqueued() ? 2 : 0)); std::this_thread::yield(); }
         for (auto &t : th) t.join();
         if (stopper.joinable()) stopper.join();
     }
